@@ -618,7 +618,8 @@ def kronecker (y m : Int) : Int :=
 /-- `TMCG_PublicKey::check()`; `isPrime` answers `mpz_probab_prime_p(m, 500)`.
     (For even `m` the first test or the second refuses: the order is not observable.) -/
 def check (O : Oracles) (isPrime : Int → Bool) (K : PubKey) (fuel : Nat) : Except Err Bool :=
-  if K.m % 2 = 0 then .ok false
+  if K.m ≤ 0 then .ok false
+  else if K.m % 2 = 0 then .ok false
   else if kronecker K.y K.m ≠ 1 then .ok false
   else if isPrime K.m then .ok false
   else if ¬ verify O K.m K.sig (bytesOf (selfData K)) K.sig then .ok false
